@@ -46,18 +46,16 @@ def fam_group(fam):
     return {'xml': 'xml', 'soap11': 'xml', 'soap12': 'xml', 'json': 'dict', 'yaml': 'dict', 'msgpack': 'dict', 'http': 'flat'}[fam]
 
 
-def collect(ctx, with_lxml=False, families=None, positions=None):
-    """Run every case x position x family; -> list of records (case, pos, fam, obs)."""
-    d = V.export(ctx)
-    cases = d['cases']
-    fams = families or sorted(d['families'])
-    ok_value = {}
-    for c in cases:
-        if c['valid'] and c['group'] in ('num', 'big', 'str', 'enum', 'date', 'lex'):
-            ok_value.setdefault((c['group'], c['ty'], c.get('facet')), c)
+_CASES = None
+_OKV = None
+
+
+def _collect_chunk(job):
+    idxs, fams, with_lxml, positions = job
     runner = V.Runner()
     recs = []
-    for c in cases:
+    for ci in idxs:
+        c = _CASES[ci]
         T = V.type_of(c)
         for fam in fams:
             v = V.value_of(c, fam)
@@ -66,7 +64,7 @@ def collect(ctx, with_lxml=False, families=None, positions=None):
             for pos in V.positions_of(c, fam):
                 if positions is not None and pos not in positions:
                     continue
-                okc = ok_value.get((c['group'], c['ty'], c.get('facet')))
+                okc = _OKV.get((c['group'], c['ty'], c.get('facet')))
                 ok = V.value_of(okc, fam) if okc is not None else None
                 if pos in ('array', 'rep', 'repfield') and (ok is None or ok is V.SKIP):
                     continue
@@ -80,28 +78,42 @@ def collect(ctx, with_lxml=False, families=None, positions=None):
                     except Exception as e:
                         rec['lxml_error'] = '%s: %s' % (type(e).__name__, e)
                 recs.append(rec)
+    return recs
+
+
+def collect(ctx, with_lxml=False, families=None, positions=None):
+    """Run every case x position x family (in a pool of processes; cases of one type stay together so that the
+    applications are shared); -> list of records (case, pos, fam, obs) in case order."""
+    global _CASES, _OKV
+    import multiprocessing
+    d = V.export(ctx)
+    cases = d['cases']
+    fams = families or sorted(d['families'])
+    ok_value = {}
+    for c in cases:
+        if c['valid'] and c['group'] in ('num', 'big', 'str', 'enum', 'date', 'lex'):
+            ok_value.setdefault((c['group'], c['ty'], c.get('facet')), c)
+    _CASES, _OKV = cases, ok_value
+    order = sorted(range(len(cases)), key=lambda k: (json.dumps(V.type_of(cases[k]), sort_keys=True, default=str), k))
+    n = 12
+    size = (len(order) + n * 3 - 1) // (n * 3)
+    jobs = [(order[a:a + size], fams, with_lxml, positions) for a in range(0, len(order), size)]
+    with multiprocessing.get_context('fork').Pool(n) as pool:
+        parts = pool.map(_collect_chunk, jobs)
+    recs = [r for p in parts for r in p]
     return d, recs
 
 
 def judge(ctx, recs, schema=False):
-    tf = os.path.join(ctx.work, 'validate_traces.ndjson')
-    with open(tf, 'w') as f:
-        for r in recs:
-            o = {'ran': bool(r['obs']['ran']), 'fault': bool(r['obs']['fault']), 'client': bool(r['obs']['client'])}
-            if schema and 'lxml' in r:
-                o['lxml'] = bool(r['lxml']['ran'])
-            f.write(json.dumps({'valid': r['case']['valid'], 'obs': o}) + '\n')
-    cfgt = pc.write_cfg(os.path.join(ctx.work, 'traceval.cfg'), ['INIT Init', 'NEXT Next', 'CONSTRAINT Report', 'CHECK_DEADLOCK FALSE'])
-    out = {}
-    rt = tlc.run('TraceValidate', cfgt, ctx.work, env={'TRACE_FILE': tf}, timeout=1800)
-    seen = set()
-    for p in rt.prints:
-        if p and p[0] == 'V' and p[1] not in seen:
-            seen.add(p[1])
-            if p[2]:
-                out[p[1] - 1] = set(p[2])
-    if len(seen) != len(recs):
-        raise tlc.TlcError('TraceValidate evaluated %d of %d\n%s' % (len(seen), len(recs), rt.stdout[-1500:]))
+    lines = []
+    for r in recs:
+        o = {'ran': bool(r['obs']['ran']), 'fault': bool(r['obs']['fault']), 'client': bool(r['obs']['client'])}
+        if schema and 'lxml' in r:
+            o['lxml'] = bool(r['lxml']['ran'])
+        lines.append({'valid': r['case']['valid'], 'obs': o})
+    res = tlc.validate_records('TraceValidate', ['INIT Init', 'NEXT Next', 'CONSTRAINT Report', 'CHECK_DEADLOCK FALSE'], ctx.work, lines,
+                               chunk=20000, tag='val')
+    out = {k: set(v[0]) for k, v in res.items() if v[0]}
     return out
 
 
